@@ -60,14 +60,19 @@ def segment(evs, idx):
 
 def run_life(c, args_list, what, need_observable=False):
     tot = {"cases": 0, "observations": 0, "compared": 0, "weak": 0, "debugOn": 0, "segments": 0}
-    for k, args in enumerate(args_list):
+
+    def one(k, args):
         trace = c.path("life_%d.ndjson" % k)
         summ = c.path("life_%d.json" % k)
         c.run_driver(["life", "-trace", trace, "-out", summ] + args, env={"VERIF_SEED": str(c.seed * 1000 + k)}, timeout=3000)
         s = json.load(open(summ))
-        bad, res = c.validate_trace("TraceLifecycle", LIFE_CFG % ("TRUE" if need_observable else "FALSE"), trace, tag="TraceLifecycle_%d" % k, timeout=3000)
+        bad, res = c.validate_trace("TraceLifecycle", LIFE_CFG % ("TRUE" if need_observable else "FALSE"), trace,
+                                    tag="TraceLifecycle_%d" % k, timeout=3000)
+        evs = read_ndjson(trace) if bad else None
+        return k, s, bad, res, evs
+
+    for k, s, bad, res, evs in c.parallel([lambda k=k, a=a: one(k, a) for k, a in enumerate(args_list)], max_workers=4):
         if bad:
-            evs = read_ndjson(trace)
             seen = set()
             for idx, why in bad[:40]:
                 hist = segment(evs, idx)
